@@ -22,16 +22,20 @@ static const int kInvalid[4] = {0, 3, 5, 128};
 
 struct Entry { int pat; int size; size_t offset; };
 
-struct Cfg { int dummy = 0; };
+// an alphabet is a list of raw op ids (0..24); the full alphabet is the identity map
+struct Cfg { std::vector<int> ops; };
 
 struct Sys {
   Arena arena;
   ConstPool pool;
   std::vector<Entry> model;     // successful adds (first occurrence of each (pat,size))
-  Sys(const Cfg&) : arena(4096), pool(arena) {}
+  const Cfg& cfg;
+  Sys(const Cfg& c) : arena(4096), pool(arena), cfg(c) {}
 
-  int num_ops() const { return 3 * 7 + 4; }
-  std::string op_name(int op) const {
+  int num_ops() const { return (int)cfg.ops.size(); }
+  std::string op_name(int i) const { return raw_name(cfg.ops[i]); }
+  bool apply(int i, std::string& why) { return apply_raw(cfg.ops[i], why); }
+  static std::string raw_name(int op) {
     char b[64];
     if (op < 21) snprintf(b, sizeof b, "add(P%d,%d)", op / 7, kValid[op % 7]);
     else snprintf(b, sizeof b, "add(P0,%d)", kInvalid[op - 21]);
@@ -109,7 +113,7 @@ struct Sys {
     return true;
   }
 
-  bool apply(int op, std::string& why) {
+  bool apply_raw(int op, std::string& why) {
     size_t size_before = pool.size(), align_before = pool.alignment();
     if (op >= 21) {
       size_t off = 12345;
@@ -168,20 +172,22 @@ int main(int argc, char** argv) {
   vh::Ctx& c = vh::ctx();
   init_patterns();
   Cfg cfg;
+  for (int i = 0; i < 25; i++) cfg.ops.push_back(i);
   if (c.replaying()) {
     std::vector<int> h = parse_hist(c.replay_text);
     Sys s(cfg); std::string why, names;
     for (size_t i = 0; i < h.size(); i++) {
-      names += s.op_name(h[i]) + ";";
-      if (!s.apply(h[i], why)) { c.violation("replay", why + " after " + names, c.replay_text); break; }
+      names += Sys::raw_name(h[i]) + ";";
+      if (!s.apply_raw(h[i], why)) { c.violation("replay", why + " after " + names, c.replay_text); break; }
     }
     return vh::finish();
   }
-  int depth = c.thorough() ? 6 : 4;
+  int depth = c.thorough() ? 5 : 4;
   if (!c.opt("depth").empty()) depth = atoi(c.opt("depth").c_str());
+  const Cfg* cur = &cfg;
   auto onv = [&](const std::vector<int>& h, const std::string& names, const std::string& why) {
     std::string ops;
-    for (size_t i = 0; i < h.size(); i++) { if (i) ops += ","; ops += std::to_string(h[i]); }
+    for (size_t i = 0; i < h.size(); i++) { if (i) ops += ","; ops += std::to_string(cur->ops[h[i]]); }
     // key: the oracle clause that failed + the last operation (stable across histories of one defect)
     std::string last = names.substr(names.rfind(';') == std::string::npos ? 0 : names.rfind(';') + 1);
     std::string clause = why.substr(0, why.find_first_of("0123456789"));
@@ -196,10 +202,32 @@ int main(int argc, char** argv) {
   c.n("replays") += st.replays;
   c.n("merged_transitions") += st.pruned;
   c.strs["depth_completed"] = std::to_string(st.depth_completed);
+  // phase 2: longer histories over a reduced alphabet: sizes {1,4,8,32} of the all-equal pattern, sizes {4,8,32} of the
+  // distinct-groups pattern and {4,8} of its non-leading chunk (forced to collide with sub-constants of P1) + invalid size 3
+  int depth2 = c.thorough() ? 11 : 10;
+  if (!c.opt("depth2").empty()) depth2 = atoi(c.opt("depth2").c_str());
+  Cfg red;
+  red.ops = {0, 2, 3, 5, 7 + 2, 7 + 3, 7 + 5, 14 + 2, 14 + 3, 22};
+  // thorough: 10 valid constants; depth 11 >= number of distinct constants + 1, so the search runs to its fixpoint:
+  // every order in which any subset of the alphabet can be added (re-adding a known constant does not change the state)
+  if (c.thorough()) red.ops = {0, 1, 2, 3, 5, 7 + 2, 7 + 3, 7 + 5, 14 + 2, 14 + 3, 22};
+  cur = &red;
+  if (depth2 > 0 && !c.out_of_time()) {
+    xplor::BfsStats s2 = xplor::bfs_histories<Sys, Cfg>(red, depth2, "pool", onv, -1, c.shard_i, c.shard_n);
+    c.n("states") += s2.states;
+    c.n("transitions") += s2.transitions;
+    c.n("traces") += s2.transitions;
+    c.n("evaluations") += s2.transitions;
+    c.n("distinct_nontrivial") += s2.states;
+    c.n("replays") += s2.replays;
+    c.n("merged_transitions") += s2.pruned;
+    c.n("phase2_states") += s2.states;
+    c.strs["depth2_completed"] = std::to_string(s2.depth_completed);
+  }
   c.strs["rule"] = "BFS over histories of ConstPool::add(data,size); alphabet 3 byte patterns (all-equal; distinct 4-byte groups; "
                    "non-leading chunk of the second) x sizes {1,2,4,8,16,32,64} + invalid sizes {0,3,5,128}; a state is distinct when "
                    "its canonical form (size, alignment, constants, gap lists, registered sub-constants) was not seen before";
-  c.strs["bound"] = "depth<=" + std::to_string(depth);
+  c.strs["bound"] = "depth<=" + std::to_string(depth) + " over the full alphabet (25 ops); depth<=" + std::to_string(depth2) + " over the reduced alphabet (" + std::to_string(red.ops.size()) + " ops: fixpoint when depth exceeds the number of valid constants)";
   c.assumptions.push_back("three byte patterns stand for all data values; offsets and gaps depend on data only through equality of (sub-)constants");
   return vh::finish();
 }
